@@ -18,7 +18,7 @@ def run(chk):
     recs = core.run_driver('beam', tier=chk.tier, seed=chk.seed, cases=cases)
     chk.validate('names', 'Trace_Beam', 'Trace_Beam.cfg', recs, driver='beam', jobs=8)
     goods = [r for r in recs if r['name'] == 'rank1_gev+mvdr_souden+ban']
-    good = goods[0]
+    good = goods[0] if goods else None
 
     def corrupt(r):
         r['d_direct'] = r['d_direct'][::-1]
